@@ -65,24 +65,24 @@ Definition is_regional_indicator (b : list Z) : bool :=
 (* a token of printable text: bytes consumed, cell width, merge flag, reader state after it *)
 Record ttok := mkTtok { tt_len : Z; tt_width : Z; tt_merge : bool; tt_rs : rstate }.
 
+(* the merge rules of nextGraphemeTokenInfo: (merge, forceMergeNext, lastWasRI) for a cluster, given the two flags before it *)
+Definition merge_flags (cluster : list Z) (merge0 ri0 : bool) : bool * bool * bool :=
+  let fm0 := false in      (* forceMergeNext is consumed whether or not it was set *)
+  if is_combining_only cluster then (true, fm0, ri0)
+  else if is_zwj_only cluster then (true, true, ri0)
+  else if is_vs_only cluster then (true, fm0, ri0)
+  else if is_regional_indicator cluster then
+    (if 1 <? rune_count (length cluster) cluster then (merge0, fm0, false)
+     else if ri0 then (true, fm0, false)
+     else (merge0, fm0, true))
+  else (merge0, fm0, false).
+
 (* nextGraphemeTokenInfo *)
 Definition next_grapheme_token (buf : list Z) (rs : rstate) : option ttok :=
   match step_grapheme_cluster buf (rs_state rs) with
   | None => None
   | Some (consumed, width, ns) =>
-      let cluster := zfirstn consumed buf in
-      let merge0 := rs_fm rs in
-      let fm0 := false in      (* forceMergeNext is consumed whether or not it was set *)
-      let ri0 := rs_ri rs in
-      let '(merge, fm, ri) :=
-        if is_combining_only cluster then (true, fm0, ri0)
-        else if is_zwj_only cluster then (true, true, ri0)
-        else if is_vs_only cluster then (true, fm0, ri0)
-        else if is_regional_indicator cluster then
-          (if 1 <? rune_count (length cluster) cluster then (merge0, fm0, false)
-           else if ri0 then (true, fm0, false)
-           else (merge0, fm0, true))
-        else (merge0, fm0, false) in
+      let '(merge, fm, ri) := merge_flags (zfirstn consumed buf) (rs_fm rs) (rs_ri rs) in
       (* a cluster that takes no cell of its own joins the character before it *)
       let merge := merge || (width <=? 0) in
       Some (mkTtok consumed (if merge then 0 else width) merge (mkRs ns fm ri))
